@@ -366,6 +366,27 @@ func parseRule(node *yaml.Node, offsetLine, offsetColumn int, contentLines []str
 		}
 	}
 
+	// A YAML null (~, null or nothing at all) is an empty string for Prometheus,
+	// not the text it is spelled with.
+	for _, entry := range []struct {
+		part *yaml.Node
+		key  string
+	}{
+		{key: recordKey, part: recordNode},
+		{key: alertKey, part: alertNode},
+		{key: exprKey, part: exprNode},
+	} {
+		if entry.part != nil && entry.part.Kind == yaml.ScalarNode && entry.part.ShortTag() == nullTag {
+			return Rule{
+				Lines: lines,
+				Error: ParseError{
+					Line: entry.part.Line + offsetLine,
+					Err:  fmt.Errorf("%s value cannot be empty", entry.key),
+				},
+			}, false
+		}
+	}
+
 	for _, entry := range []struct {
 		part *yaml.Node
 		key  string
